@@ -8,6 +8,10 @@ CHECKS = {
    technique='symbolic execution of the real generated scripts on z3 terms (NumPy object arrays); per-element SMT equivalence of e vs e.simplified; counterexample replay on real NumPy',
    text='For every program of a bounded family (all constructor applications of depth<=1, depth 2 sampled/exhaustive, seeded deeper DAGs) z3 shows that the simplified and the original expression agree for ALL argument values (reals/integers), or returns a concrete argument that is replayed on the real code.  Termination is observed under a watchdog on the same family.',
    note='Trusted: z3; the SArray model of NumPy (conformance-tested); floats as reals, ints unbounded; transcendental functions uninterpreted.  Programs outside the family, NaN/Inf inputs and int64 overflow are outside the claim.'),
+ 'C06': dict(level='other', design='4/C06',
+   technique='inductive SMT obligations: the real _intbounds_impl executed on symbolic child ranges under a path explorer, node semantics from its real generated script, z3 proves containment for unbounded integers; shape/dtype/arguments via symbolic runs with the generated evalf assertions',
+   text='Per node class with an integer-range rule (discovered by introspection) z3 proves, for unbounded integers and every finite/infinite pattern of child ranges, that the evaluated node stays inside the inferred range - an inductive step that covers compositions of any depth.  Shape, dtype, ndim and announced arguments are checked by running family programs symbolically with the generated run-time assertions enabled and exactly the announced arguments supplied.',
+   note='Trusted: z3, the SArray model of NumPy.  Axis lengths are small constants; PolyDegree/PolyNCoeffs are enumerated over child ranges within 0..29 (finite enumeration, labelled); TransformIndex and ArrayFromTuple ranges are declined.  Mathematical integers (no int64 wrap).'),
 }
 
 NOT_APPLICABLE = {
